@@ -113,6 +113,17 @@ func (d *Device) serverID() ([]byte, uint8, []byte) {
 		return d.ServerID, d.Status, d.Additional
 	}
 	n := 1 + int(mix(d.Seed, 9, 0)%12)
+	if mix(d.Seed, 11, 0)%5 == 0 {
+		// a long server id (the reply is then far longer than anything the request lets a client anticipate): 40..239 bytes, with the
+		// replies of 63..65 and 127..129 bytes over-represented
+		n = 40 + int(mix(d.Seed, 11, 1)%200)
+		switch mix(d.Seed, 11, 2) % 4 {
+		case 0:
+			n = 50 + int(mix(d.Seed, 11, 3)%8)
+		case 1:
+			n = 114 + int(mix(d.Seed, 11, 3)%8)
+		}
+	}
 	id := make([]byte, n)
 	for i := range id {
 		id[i] = byte(mix(d.Seed, 9, i+1))
